@@ -32,6 +32,7 @@ func cmdQueue(args []string) int {
 	muts := fs.Int("muts", 1, "mutations per caller")
 	nest := fs.String("nest", "", "nested mutations, e.g. 1.1,2.1")
 	veto := fs.String("veto", "", "vetoed mutations, e.g. 2.1")
+	prep := fs.String("prep", "", "operations that are Eval (k odd) / CanAdd (k even), e.g. 1.1")
 	enum := fs.Bool("enum", false, "enumerate all schedules")
 	max := fs.Int("max", 100000, "max schedules for -enum")
 	random := fs.Int("random", 0, "number of random schedules")
@@ -62,12 +63,15 @@ func cmdQueue(args []string) int {
 		}
 		return r
 	}
-	sc := queuedrv.Scenario{Callers: *callers, MutsPer: *muts, Nest: parse(*nest), Veto: parse(*veto)}
+	sc := queuedrv.Scenario{Callers: *callers, MutsPer: *muts, Nest: parse(*nest), Veto: parse(*veto), Prep: parse(*prep)}
 	if sc.Nest == nil {
 		sc.Nest = [][2]int{}
 	}
 	if sc.Veto == nil {
 		sc.Veto = [][2]int{}
+	}
+	if sc.Prep == nil {
+		sc.Prep = [][2]int{}
 	}
 
 	type job struct {
@@ -98,6 +102,9 @@ func cmdQueue(args []string) int {
 			}
 			if it.Scenario.Veto == nil {
 				it.Scenario.Veto = [][2]int{}
+			}
+			if it.Scenario.Prep == nil {
+				it.Scenario.Prep = [][2]int{}
 			}
 			jobs = append(jobs, job{it.Scenario, it.Sched, it.Label})
 		}
@@ -158,7 +165,7 @@ func cmdQueue(args []string) int {
 				defer wg.Done()
 				defer func() { <-sem }()
 				lines := queuedrv.RunFree(sc.Callers, sc.MutsPer, *seed*1000+int64(i))
-				fsc := queuedrv.Scenario{Callers: sc.Callers, MutsPer: sc.MutsPer, Nest: [][2]int{}, Veto: [][2]int{}}
+				fsc := queuedrv.Scenario{Callers: sc.Callers, MutsPer: sc.MutsPer, Nest: [][2]int{}, Veto: [][2]int{}, Prep: [][2]int{}}
 				write(fsc, fmt.Sprintf("free%d", i), lines, []int{i})
 			}(i)
 		}
